@@ -294,6 +294,7 @@ func runC12(c *Ctx) {
 	ruleParamEnable(c)
 	// AUTH / STARTTLS handlers use the same predicates as the advertisement
 	ruleSizeParam(c) // the advertised SIZE limit is the one MAIL enforces
+	ruleNoSharedMutableGlobals(c)
 
 	R.Rule("R-cmd-gates-agree", "E8 sibling agreement", "the STARTTLS and AUTH handlers accept under the same predicates that advertise them", 2)
 	if g := c.A.Func("(*Conn).handleStartTLS"); g != nil {
